@@ -5,6 +5,7 @@ import (
 	"encoding/json"
 	"fmt"
 	"net"
+	"strconv"
 	"strings"
 	"testing"
 	"time"
@@ -256,6 +257,9 @@ func checkC05(sim *core.Sim, prop string, pp PeerPlan, pr *peerRun) {
 		sim.Violate(prop, "accept", "exchange-error", "Exchange returned %v against a conforming peer", pr.res.err)
 		return
 	}
+	if pr.peer.Hasty {
+		sim.Probe("peer-quit-out-of-turn-behind-its-last-block")
+	}
 	if !pr.peer.Completed {
 		sim.Violate(prop, "outcome", "peer-not-completed", "the peer did not reach FQ: %s", pr.peer.Stopped)
 		return
@@ -297,6 +301,13 @@ func checkC05(sim *core.Sim, prop string, pp PeerPlan, pr *peerRun) {
 		case '+':
 			if _, ok := pr.peer.Received[mid]; !ok {
 				sim.Violate(prop, "outcome", "accepted-not-transferred", "peer accepted %s (%q) but never received it", mid, pp.Peer.Answers[mid])
+			}
+			if tl, ok := pr.peer.Tails[mid]; ok {
+				sim.Probe("transfer-resumed-at-a-nonzero-offset")
+				// the announced image is the library's own compression of the queued message
+				if img := (libCodec{}).Compress(pr.lib.queued[mid]); tl.Off <= len(img) && !bytes.Equal(img[tl.Off:], tl.Data) {
+					sim.Violate(prop, "emit", "resumed-transfer-wrong-bytes", "peer asked for %s from offset %d: the %d bytes sent are not the compressed message from that offset on (%d bytes)", mid, tl.Off, len(tl.Data), len(img)-tl.Off)
+				}
 			}
 			if c != [3]int{1, 0, 0} {
 				sim.Violate(prop, "outcome", "accepted-callbacks", "peer accepted %s (%q): callbacks sent/rejected/deferred = %v", mid, pp.Peer.Answers[mid], c)
@@ -422,6 +433,11 @@ func genC05(tier string, r *core.Rand) PeerPlan {
 		if cls == '+' && !allowH {
 			forms = []string{"+", "Y", "y", "!0", "A0", "a0"}
 		}
+		if cls == '+' && !pp.Lib.Gzip && r.Chance(0.1) {
+			// resume request: accept from a non-zero offset
+			p.Answers[m.MID] = core.Choice(r, []string{"!", "A", "a"}) + "p" + strconv.Itoa(r.Range(0, 99))
+			continue
+		}
 		switch style {
 		case 0:
 			p.Answers[m.MID] = forms[0]
@@ -432,6 +448,7 @@ func genC05(tier string, r *core.Rand) PeerPlan {
 		}
 	}
 	p.EarlyFQ = r.Chance(0.15)
+	p.HastyFQ = r.Chance(0.15)
 	pp.RefCodec = r.Bool()
 	return pp
 }
